@@ -475,9 +475,34 @@ class C05(Spec):
         return items
 
     # ------------------------------------------------------------------ oracle
+    @staticmethod
+    def in_domain(case):
+        """Is the history inside the property's quantifier?  Distinct (t0, key) pairs, one epoch length,
+        every request visible within the look-back window, no removal made visible before its request."""
+        reqs = case['reqs']
+        if len({(r['t0'], r.get('key')) for r in reqs}) != len(reqs):
+            return False
+        B = buffer_samples(case)
+        if B < 0:
+            return False
+        lens = set()
+        for r in reqs:
+            s, n = conv(case, r)
+            lens.add(n)
+            if s < 0 or n < 0 or not (0 <= r['j'] < len(case['parts'])):
+                return False
+            if oldest_start(case['parts'], B, r['j']) > s:
+                return False
+        if len(lens) > 1:
+            return False
+        for rm in case['rems']:
+            if rm['j'] < reqs[rm['r']]['j']:
+                return False
+        return True
+
     def oracle(self, case, out):
         """The property, on the real code's outputs (valid histories only)."""
-        if case['kind'] == 'malformed':
+        if not self.in_domain(case):
             return None
         if out and out[0].startswith('HARNESS-EXC'):
             return f'extractor raised: {out[0]}'
@@ -606,7 +631,6 @@ class C05(Spec):
             c['rems'] = [{'r': rm['r'], 'j': rng.randint(reqs[rm['r']]['j'], len(c['parts']) - 1)} for rm in case['rems']]
             if c['sc'] is not None:
                 c['sc'] = min(c['sc'], len(c['parts']))
-            c['kind'] = 'random'
             yield c
 
     def shrink_candidates(self, case):
